@@ -603,6 +603,7 @@ pub fn run_random<D: Driver>(opts: &RunOpts) -> Outcome {
         if failed || tainted > 0 {
             // the instance may be corrupt: do not run its destructors
             std::mem::forget(d);
+            ctx.count("abandoned_histories", 1);
             continue;
         }
         ctx.fails.clear();
@@ -714,6 +715,7 @@ pub fn run_bfs<D: Driver>(opts: &RunOpts) -> Outcome {
                 // fingerprint is too coarse; report as harness problem
                 ctx.count("bfs_replay_divergence", 1);
                 std::mem::forget(d);
+                ctx.count("abandoned_histories", 1);
                 ctx.fails.clear();
                 continue;
             }
@@ -751,6 +753,7 @@ pub fn run_bfs<D: Driver>(opts: &RunOpts) -> Outcome {
                     t.push(ev);
                     stop = rec.record::<D>(cfg, k, true, &t, &fs, true);
                     std::mem::forget(dd);
+                    ctx.count("abandoned_histories", 1);
                     if stop {
                         exhausted = false;
                         break 'outer;
@@ -865,6 +868,7 @@ pub fn run_sweep<D: Driver>(opts: &RunOpts) -> Outcome {
             }
             if bad {
                 std::mem::forget(d);
+                ctx.count("abandoned_histories", 1);
                 if stop {
                     break;
                 }
